@@ -89,6 +89,15 @@ type Outcome struct {
 	Steps      int64
 }
 
+// Alternatives lists the number of alternatives at each decision point.
+func (o *Outcome) Alternatives() []int {
+	var a []int
+	for _, p := range o.Points {
+		a = append(a, p.n)
+	}
+	return a
+}
+
 // RunOnce executes the scenario under the schedule given by choices (default
 // decision 0 after the prefix).
 func RunOnce(sc *Scenario, choices []int) *Outcome {
@@ -200,7 +209,7 @@ func Explore(sc *Scenario, bound int, deadline time.Time, shard, nshards int) *R
 			res.MaxPoints = len(o.Points)
 		}
 		if o.Diverged != "" {
-			panic("INFRA: schedule replay diverged in scenario " + sc.Name + ": " + o.Diverged)
+			panic(fmt.Sprintf("INFRA: schedule replay diverged in scenario %s: %s; prefix %v", sc.Name, o.Diverged, prefix))
 		}
 		res.Outcomes[o.Final]++
 		if cost > 0 {
